@@ -77,12 +77,12 @@ static void sink(const unsigned char *s, size_t n, void *arg) {
             } else if (bit == 2) {   /* + LABELS_ALLOW_UNDERSCORE */
                 if (!has_us) { if (!same) viol("underscore:leaks-outside-its-scope", v, m, t, s, n, "no '_' in a host-name domain, but adding UNDERSCORE to variant %d changed rc %d->%d flags %d->%d", b, y.rc, x.rc, y.f, x.f); else MC_ADD(C_SAME, 1); }
                 else if (!t && y.rc != -20 /* EEAV_DOMAIN_INVALID_CHAR */ && y.rc != -2 && y.rc != 0 && x.rc == y.rc) MC_ADD(C_SAME, 1);   /* rejected earlier for another reason (local part, length ...) */
-                else if (!t && dn < 1000) {
+                else if (!t && dn < 4000) {
                     MC_ADD(C_DELTAUS, 1);
                     /* decision of the domain part with '_' as a letter, by the reference */
                     int exp = ref_domain(D, dn, RO_UNDERSCORE); if (m == 3) exp = ref_expect_6531(D, dn, exp, RO_UNDERSCORE);
                     /* only meaningful when the local part is fine: compare the domain verdict through "x@D" */
-                    char xb[1100]; xb[0] = 'x'; xb[1] = '@'; memcpy(xb + 2, D, dn); xb[dn + 2] = 0;
+                    char xb[4200]; xb[0] = 'x'; xb[1] = '@'; memcpy(xb + 2, D, dn); xb[dn + 2] = 0;
                     out_t xd = call(v, m, xb, dn + 2, 0), yd = call(b, m, xb, dn + 2, 0);
                     if ((xd.rc == 0) != (exp == R_ACC)) viol("underscore:decision-differs-from-reference", v, m, t, (unsigned char *)xb, dn + 2, "x@D with '_' allowed: reference %s, UNDERSCORE build rc %d", exp == R_ACC ? "ACCEPT" : "REJECT", xd.rc);
                     if (yd.rc == 0) viol("underscore:base-build-accepts-underscore", b, m, t, (unsigned char *)xb, dn + 2, "a build without UNDERSCORE accepts a host name containing '_'");
@@ -92,9 +92,9 @@ static void sink(const unsigned char *s, size_t n, void *arg) {
                 else if (!lascii && !lctlws) { if (!same) viol("rfc5322:changes-non-ascii-local-part-without-ctl-or-ws", v, m, t, s, n, "rc %d->%d flags %d->%d", y.rc, x.rc, y.f, x.f); else MC_ADD(C_SAME, 1); }
             }
         }
-        if (bit == 0 && ln > 0 && ln < 3000) {
+        if (bit == 0 && ln > 0 && ln < 4000) {
             /* local-part level: in a RFC5322 build, is_6531_local == is_5322_local on pure-ASCII local parts (RFC20 characters aside) */
-            char lb[3001]; memcpy(lb, L, ln); lb[ln] = 0;
+            char lb[4001]; memcpy(lb, L, ln); lb[ln] = 0;
             int r6 = VAR[v].local[3](lb, lb + ln), r5 = VAR[v].local[2](lb, lb + ln); MC_ADD(C_EVAL, 2);
             if (lascii && !((v & 2) && any20)) { MC_ADD(C_DELTA5322, 1);
                 if ((r6 == 0) != (r5 == 0)) viol("rfc5322:6531-differs-from-5322-on-ascii-local-part", v, 3, 0, L, ln, "variant %d: is_6531_local rc %d, is_5322_local rc %d", v, r6, r5); }
@@ -122,7 +122,7 @@ int main(int argc, char **argv) {
     C_ADDR = mc_counter("addresses"); C_DELTA20 = mc_counter("rfc20_delta_cases"); C_DELTAUS = mc_counter("underscore_delta_cases"); C_DELTA5322 = mc_counter("rfc5322_delta_cases"); C_SAME = mc_counter("must_be_identical_comparisons");
     if (corpus_load()) return 2;
     if (mc_replay) return do_replay();
-    static const int PH[] = { CP_LOCAL, CP_EMAIL, CP_DOMAIN, CP_CROSS, CP_BYTES, CP_TLD, CP_LITERAL };
+    static const int PH[] = { CP_LOCAL, CP_EMAIL, CP_DOMAIN, CP_CROSS, CP_BYTES, CP_TLD, CP_LITERAL, CP_LABELLEN, CP_ALTDOT, CP_LONGIDN, CP_MAXLIT };
     for (unsigned i = 0; i < sizeof PH / sizeof PH[0]; i++) { CURPH = PH[i]; char nm[64]; snprintf(nm, sizeof nm, "%.40s (N=%d)", corpus_name(CURPH), corpus_N(CURPH)); mc_parallel(nm, corpus_shards(CURPH), phase_shard, NULL); }
     return mc_finish();
 }
